@@ -82,6 +82,12 @@ def gen_cases(tier: str, seed: int):
             elif x < 0.45:
                 nm = r.choice(pool)
                 steps.append(["unset", conn, cur, r.choice([nm, nm.upper(), nm.lower()])])
+            elif x < 0.50:
+                nm = r.choice(pool)
+                steps.append(["script_set_use", conn, cur, r.choice([nm, nm.upper(), nm.lower()]), r.randrange(len(VALUES))])
+            elif x < 0.58:
+                nm = r.choice(pool)
+                steps.append(["use_with_params", conn, cur, r.choice([nm, nm.upper(), nm.lower()]), r.choice(["execute", "executemany"])])
             elif x < 0.8:
                 nm = r.choice(pool)
                 steps.append(["use", conn, cur, r.choice([nm, nm.upper(), nm.lower()]), r.choice(POSITIONS)])
@@ -230,6 +236,48 @@ def run_case(case: dict, env: core.Env) -> None:
                 if o2["ok"]:
                     env.witness("C15/other-connection-sees-variable", f"conn {oc} SELECT ${name} -> {o2['rows']}")
                     return
+        elif kind == "script_set_use":
+            # a script that defines a variable and uses it further down: statements run (and resolve variables) in order
+            name, (vcls, vsql, vpy) = step[3], VALUES[step[4]]
+            script = f"SET {name} = {vsql};\nSELECT ${name} AS X;"
+            env.count("cmp_use")
+            try:
+                cs = list(conns[ci].execute_string(script))
+                got = [tuple(x) for x in cs[-1].fetchall()]
+            except Exception as e:  # noqa: BLE001
+                env.witness(f"C15/script-set-then-use/error-{type(e).__name__}/{vcls}", f"{script!r}: {e}"[:400])
+                return
+            model[ci][name.upper()] = (vcls, vpy)
+            max_defined = max(max_defined, len(model[ci]))
+            compared += 1
+            if got != [(vpy,)] or type(got[0][0]) is not type(vpy):
+                env.witness(f"C15/script-set-then-use/wrong-value/{vcls}", f"{script!r} -> {got} expected {[(vpy,)]}")
+                return
+        elif kind == "use_with_params":
+            # a variable next to bound parameters (the connection's default pyformat style)
+            name, how = step[3], step[4]
+            defined = model[ci].get(name.upper())
+            if defined is None:
+                continue
+            vcls, vpy = defined
+            env.cover("use_position_x_value", f"params-{how}/{vcls}")
+            env.count("cmp_use")
+            compared += 1
+            try:
+                if how == "execute":
+                    got = [tuple(x) for x in cur.execute(f"SELECT ${name} AS V, %s AS P, %s AS Q", ("p%s", 3)).fetchall()]
+                    exp = [(vpy, "p%s", 3)]
+                else:
+                    cur.execute("CREATE OR REPLACE TABLE VT2 (N INT, P VARCHAR, X VARCHAR)")
+                    cur.executemany(f"INSERT INTO VT2 SELECT %s, %s, ${name}", [(1, "a%"), (2, "b")])
+                    got = sorted(tuple(x) for x in cur.execute("SELECT N, P, X FROM VT2").fetchall())
+                    exp = [(1, "a%", str(vpy)), (2, "b", str(vpy))]
+            except Exception as e:  # noqa: BLE001
+                env.witness(f"C15/use/error-{type(e).__name__}/{vcls}/params-{how}", f"${name} = {vpy!r} with bound parameters: {e}"[:400])
+                return
+            if got != exp:
+                env.witness(f"C15/use/wrong-value/{vcls}/params-{how}", f"${name} = {vpy!r} with bound parameters -> {got} expected {exp}")
+                return
         elif kind == "literal":
             lk, sql, exp = LITERALS[step[3]]
             state = "v1-defined" if "V1" in model[ci] else "v1-undefined"
